@@ -883,7 +883,7 @@ def expand_for(lines, root):
             for tp in tuples:
                 vals = [x.strip() for x in tp.split(";")] if ";" in tp else [x.strip() for x in tp.split(",")]
                 env = dict(zip(names, vals))
-                out.extend(expand_for(expand_includes([subst(b, env) for b in block], root), root))
+                out.extend(expand_for([subst(b2, env) for b2 in expand_includes([subst(b, env) for b in block], root)], root))
             i = j + 1
             continue
         out.append(ln)
@@ -1135,6 +1135,10 @@ _CONV_SHAPES = {
 }
 
 
+# bodies that are deliberately left to the Kani instances (delegations through `into()`, floats, identity)
+_CONV_SKIP = {"src . into ( )", "src . to_repr_fixed ( ) . to_num ( )", "src", "src as f32", "src as f64"}
+
+
 def render_convert_headers(idx, table, linemap, out, props, bodies=False, must_fail=False):
     """One proof obligation per From / LossyFrom impl of `mod convert` between fixed-point types, integers and bool:
     the translated where-clause (R6) must imply that the conversion cannot overflow (and, for From, loses nothing)."""
@@ -1190,9 +1194,15 @@ def render_convert_headers(idx, table, linemap, out, props, bodies=False, must_f
             continue
         f0 = fns[0]
         btoks = idx.toks[f0.tb + 1:f0.t1]
-        shape = _CONV_SHAPES.get(" ".join(t.s for t in btoks))
+        btxt = " ".join(t.s for t in btoks)
+        shape = _CONV_SHAPES.get(btxt)
+        soft = False
         if shape is None:
-            continue
+            if btxt in _CONV_SKIP:
+                continue
+            # a body of a shape this unit has no proof recipe for (e.g. after a rewrite of the impl): it is still put under the
+            # same contract with the generic hints, but a failure is UNDECIDED, not a violation (soft obligation)
+            shape, soft = "unknown", True
         rules = Rules()
         body_txt = emit(rewrite_tokens(btoks, rules, {"frac_consts": True, "rename_int": True, "in_body": True}))
         dst_txt = dst_t.strip()
@@ -1229,7 +1239,7 @@ def render_convert_headers(idx, table, linemap, out, props, bodies=False, must_f
         linemap.append((first, len(out), item))
         table.append({"item": item, "sha256_orig": sha(idx.src(f0.t0, f0.t1)), "sha256_rewritten": sha(body_txt),
                       "rules": sorted(rules.fired | {"R6", "R11"}), "props": props, "src_line": idx.line_of(f0.t0),
-                      "n_requires": len(reqs), "n_ensures": 1, "fn_name": fname, "shape": shape})
+                      "n_requires": len(reqs), "n_ensures": 1, "fn_name": fname, "shape": shape, "soft": soft, "notwin": soft})
     return n, skipped
 
 
